@@ -72,6 +72,13 @@ Definition check_sel (nurbs : bool) (bound : Qc) (f : bsp) (lead n : nat) (oks :
 Definition ix_int (n : nat) (i : Z) : option (list nat) :=
   match py_wrap n i with Some k => Some (k :: nil) | None => None end.
 
+Fixpoint supp_eqb (a b : list (Qc * Qc)) : bool :=
+  match a, b with
+  | [], [] => true
+  | (x, y) :: a', (x', y') :: b' => qeqb x x' && qeqb y y' && supp_eqb a' b'
+  | _, _ => false
+  end.
+
 Definition opair_eqb (a : option (nat * nat)) (b : option (nat * nat)) : bool :=
   match a, b with
   | Some (x, y), Some (x', y') => Nat.eqb x x' && Nat.eqb y y'
